@@ -61,6 +61,13 @@ U_GRID = [0.7, -1.5 + 0.5j, -1j, 3.0 - 0.8j, 0.25 + 0.9j, -6.0]
 QUAD_OK = 1e-12
 
 
+def track(ctx, name, diff, tol):
+    """largest observed discrepancy / tolerance per oracle (reported in the evidence notes; must stay below 0.1)"""
+    mg = ctx.__dict__.setdefault("margins", {})
+    if tol > 0 and diff == diff:
+        mg[name] = max(mg.get(name, 0.0), float(diff) / float(tol))
+
+
 def ybranch(fam, params):
     if fam != "cgmy":
         return None
@@ -199,6 +206,8 @@ def exponent_probe(ctx, fam, params, us):
                 j = i0 - 1j * uc * tails_q
             lk = 1j * uc * drifts[rep] - 0.5 * sigma * sigma * uc * uc + j
             scale = 1 + abs(lk) + abs(uc) * (abs(drifts[rep]) + abs(mid_q or 0.0) + abs(tails_q))
+            if not (fam == "cgmy" and yb in ("y<0", "y=0", "y=1")):
+                track(ctx, "exponent_vs_lk", abs(impl - lk), 2e-10 * scale)
             if not abs(impl - lk) <= 2e-10 * scale:
                 cls = dict(family=fam, ybranch=yb, rep=rep.name)
                 mirrors = None
@@ -247,6 +256,8 @@ def cumulant_probe(ctx, fam, params):
                 ctx.branches[f"c10.cumulants:not_implemented:{fam}:{k}"] += 1
                 continue
             ctx.count("c10.cumulants", desc, nontrivial=True, branch=f"{fam}:{k}")
+            if not (fam == "cgmy" and k == 1 and yb in ("y=0", "y=1")):
+                track(ctx, "cumulants", abs(c - t * deriv.real), 1e-9 * t * max(scale, 1e-300))
             if not (abs(c - t * deriv.real) <= 1e-9 * t * max(scale, 1e-300) and abs(deriv.imag) <= 1e-9 * max(scale, 1e-300)):
                 mirrors = None
                 if fam == "cgmy" and k == 1 and yb in ("y=0", "y=1"):
@@ -296,6 +307,8 @@ def walk_probe(ctx, fam, params, walk, truncation=None):
     tol = float(scale) * 1e-12
     last = {}
     for r, a in zip(walk, impl):
+        if r == rep0.value:
+            track(ctx, "walk.reversible", abs(a - a0), tol)
         if r == rep0.value and not abs(a - a0) <= tol:
             ctx.fail("oracle", "c10.walk.reversible", desc, {"what": "back in the original representation the drift is not the original drift",
                                                              "original": a0, "after_round_trip": a, "drifts": impl}, cls=cls)
@@ -338,6 +351,7 @@ def routes_probe(ctx, fam, params, spot, r, d):
     for t in (0.5, 2.0):
         v = complex(em.log_characteristic_function(t, -1j))
         fwd = spot * math.exp((r - d) * t)
+        track(ctx, "cf_route.forward", abs(v - fwd), 1e-11 * fwd)
         if not abs(v - fwd) <= 1e-11 * fwd:
             ctx.fail("oracle", "c10.cf_route.forward", dict(desc, t=t), {"log_characteristic_function(t,-i)": [v.real, v.imag], "forward": fwd},
                      cls=cls)
@@ -385,6 +399,7 @@ def routes_probe(ctx, fam, params, spot, r, d):
         # S: martingale under the exact jump law, kappa by quadrature of the density
         if ke <= QUAD_OK:
             lhs = pd + 0.5 * sigma * sigma + kq
+            track(ctx, "direct_route.martingale", abs(lhs - (r - d)), 1e-10)
             if not abs(lhs - (r - d)) <= 1e-10:
                 ctx.fail("oracle", "c10.direct_route.martingale", desc,
                          {"process_drift()": pd, "sigma^2/2": 0.5 * sigma * sigma, "integral (e^x-1) nu(dx) by quadrature": kq,
@@ -452,6 +467,7 @@ def ctmc_probe(ctx, fam, params, spot, r, d, gd):
     if eq <= QUAD_OK:
         lhs, rhs = pdrift + sxq, float(em.drift()) + mean
         sc = 1 + abs(sxq) + abs(pdrift)
+        track(ctx, "ctmc.mean", abs(lhs - rhs), 1e-8 * sc)
         if not abs(lhs - rhs) <= 1e-8 * sc:
             ctx.fail("oracle", "c10.ctmc.mean", desc, {"process_drift": pdrift, "sum_x_rate": sxq, "drift()": float(em.drift()),
                                                        "mean_of_truncated_process": mean, "lhs": lhs, "rhs": rhs,
@@ -494,8 +510,8 @@ def stream(rng, n):
 
 def run(ctx):
     rng = ctx.rng
-    models = stream(rng, ctx.n(14, 60))
-    nu_u = ctx.n(2, 4)
+    models = stream(rng, ctx.n(24, 150))
+    nu_u = ctx.n(3, 5)
     for i, (fam, params) in enumerate(models):
         us = [-1j] + rng.sample([u for u in U_GRID if u != -1j], nu_u - 1)
         exponent_probe(ctx, fam, params, us)
@@ -513,6 +529,8 @@ def run(ctx):
         gd = (dict(kind="uniform", h=rng.choice([0.1, 0.05, 0.02]), tp=rng.choice([0.99, 0.999]))
               if rng.random() < 0.6 else dict(kind="fixed", h=rng.choice([0.1, 0.05]), nb=rng.choice([5, 9, 21])))
         ctmc_probe(ctx, fam, params, spot, r, d, gd)
+    ctx.notes.append("largest observed discrepancy / tolerance per oracle: " +
+                     ", ".join(f"{k} {v:.2e}" for k, v in sorted(getattr(ctx, "margins", {}).items())))
 
 
 def replay(ctx, rec):
